@@ -178,8 +178,8 @@ def translation_case(draw):
         # the abandoned node must stay in the circuit (otherwise a ground placed on it would rightly be rejected)
         if any(dropped in o['nodes'] for o in two if o is not c):
             c['nodes'] = [c['nodes'][0], c['nodes'][0]] if keep_first else [c['nodes'][1], c['nodes'][1]]
-    w_res = draw(st.sampled_from([1e-3, 1e-3, 1e-2, 1.0, 1e-5]))
-    mode = draw(st.integers(0, 6))
+    w_res = draw(st.sampled_from([1e-3, 1e-3, 1e-2, 1.0, 1e-5, 0.0]))     # 0.0: exact matching
+    mode = draw(st.integers(0, 6)) if w_res > 0 else draw(st.sampled_from([0, 0, 1, 1, 5]))
     ws = draw(st.sampled_from(w_pool))
     if mode == 0:
         w = 0.0
